@@ -31,9 +31,9 @@ theorem create_indep (g g' : Nat) {p : Params} (h : p.N1 ≤ p.r ∧ 1 ≤ p.see
   · omega
 
 /-- `of_set_fec_parameters`: status and resulting session do not depend on the global PRNG state -/
-theorem setParams_local (IO : SymIO σ) (g g' : Nat) (s : Session σ) (p : Params) :
-    (setParams IO g s p).2 = (setParams IO g' s p).2 := by
-  unfold setParams
+theorem setParamsStd_local (IO : SymIO σ) (g g' : Nat) (s : Session σ) (p : Params) :
+    (setParamsStd IO g s p).2 = (setParamsStd IO g' s p).2 := by
+  unfold setParamsStd
   simp only []
   by_cases hw : withinLimits s.codec p = true
   · simp only [hw, Bool.not_true, Bool.false_eq_true, if_false]
@@ -44,6 +44,15 @@ theorem setParams_local (IO : SymIO σ) (g g' : Nat) (s : Session σ) (p : Param
     · simp only [h3, Bool.false_eq_true, if_false]
   · have hw' : withinLimits s.codec p = false := by simpa using hw
     simp only [hw', Bool.not_false, if_true]
+
+/-- `of_set_fec_parameters`: status and resulting session do not depend on the global PRNG state -/
+theorem setParams_local (IO : SymIO σ) (g g' : Nat) (s : Session σ) (p : Params) :
+    (setParams IO g s p).2 = (setParams IO g' s p).2 := by
+  unfold setParams
+  split
+  · unfold setParams2D
+    (repeat' split) <;> rfl
+  · exact setParamsStd_local IO g g' s p
 
 /-- a call on one session leaves every other session exactly as it was -/
 theorem C12_other_sessions_untouched (IO : SymIO σ) (w : World σ) (op : Op) (j : Nat) (h : sidOf op ≠ some j) :
@@ -85,9 +94,9 @@ theorem step_local (IO : SymIO σ) (w w' : World σ) (op : Op) (sid : Nat) (hs :
         by_cases h3 : (s.codec == 3 && withinLimits 3 p) = true
         · have hval := limits_ldpc (by simpa using (Bool.and_eq_true _ _ ▸ h3).2 : withinLimits 3 p = true)
           rw [create_indep w.seed w'.seed hval]
-          simp [TMap.get_set_same, h3]
+          cases s.twoD <;> simp [TMap.get_set_same, h3]
         · have : (s.codec == 3 && withinLimits 3 p) = false := by simpa using h3
-          simp [this, TMap.get_set_same]
+          cases s.twoD <;> simp [this, TMap.get_set_same]
   all_goals
     simp only [step, heq]
     (repeat' split) <;> simp_all [TMap.get_set_same]
